@@ -629,6 +629,17 @@ func (r *Run) noteSlow(ms int, it *Item) {
 		return
 	}
 	r.mu.Lock()
+	if tf := os.Getenv("VERIF_TIMES"); tf != "" && ms >= 200 {
+		// debugging aid: every case that took 200 ms or more
+		if f, err := os.OpenFile(tf, os.O_APPEND|os.O_CREATE|os.O_WRONLY, 0o644); err == nil {
+			src := string(it.Case.Src)
+			if src == "" && len(it.Case.Srcs) > 0 {
+				src = string(it.Case.Srcs[0])
+			}
+			fmt.Fprintf(f, "%d\t%s\t%s\n", ms, it.Case.Op, oneLine(src, 400))
+			f.Close()
+		}
+	}
 	if int64(ms) > r.maxes["case_ms"] {
 		r.maxes["case_ms"] = int64(ms)
 		src := string(it.Case.Src)
